@@ -1,8 +1,11 @@
 package checks
 
 import (
+	"bytes"
 	"fmt"
 	"math/rand"
+
+	"github.com/wkhere/bcl"
 
 	"verif/internal/core"
 	"verif/internal/lang"
@@ -80,6 +83,19 @@ func c17One(c *core.Ctx, i int64, toks []lang.Tok, r *rand.Rand, hostile bool, t
 		if mm := checkFirstDiag(cs, diags[0]); mm != nil {
 			c.Violation(mm.Sig, mm.What, det())
 			return cs
+		}
+		// the introspection options change nothing about a rejection
+		{
+			var o2, l2 bytes.Buffer
+			var e2 error
+			pan2, _ := protect(func() {
+				_, e2 = bcl.Parse(src, "in", bcl.OptOutput(&o2), bcl.OptLogger(&l2), bcl.OptStats(true), bcl.OptDisasm(true), bcl.OptTrace(true))
+			})
+			c.Eval(1)
+			if pan2 != "" || e2 == nil {
+				c.Violation("rejection-lost-with-options", fmt.Sprintf("with statistics, disassembly and trace on, Parse of a rejected source returns err=%v %s", e2, pan2), det())
+				return cs
+			}
 		}
 		// Interpret must not return results
 		res := InterpretReused(src)
@@ -257,7 +273,7 @@ func init() {
 			"bcl.Parse must accept exactly the accepted ones silently, reject the rejected ones with err != nil and a first 'line L:C: error' diagnostic at the end of token k, Interpret must return no results for them, and err != nil <=> diagnostics in every case. " +
 			"Workload: all sequences of length <= 2 over a 55-token vocabulary, generated sentences (3-25 tokens) with EVERY single-token deletion, transposition, insertion and replacement by each vocabulary token (incl. value-less literals and lexer-failing tokens), random sequences, " +
 			"and two-fault programs (fault in a var/eval/print statement, second fault in a later var/def/eval/print statement: a diagnostic at the second fault's predicted token is required). Layout calm and hostile. " +
-			"distinct = hash of source; non-trivial = recognizer verdict definite The vocabulary includes an identifier starting with '_' (which may touch a preceding string literal); two-fault programs may use the same value-less literal in both statements. All calls of a worker go through ONE option slice built once and reused (before its first use a few calls are made through it with failing output and log writers: nothing may stick to the option values).",
+			"distinct = hash of source; non-trivial = recognizer verdict definite The vocabulary includes an identifier starting with '_' (which may touch a preceding string literal); two-fault programs may use the same value-less literal in both statements. All calls of a worker go through ONE option slice built once and reused (before its first use a few calls are made through it with failing output and log writers: nothing may stick to the option values). Every rejected source is also parsed with statistics, disassembly and trace on: the error must still be non-nil.",
 		Assumptions:   []string{"DESIGN §5.2 is the grammar; 'not' as right operand of a tighter operator is unspecified (§5.3)"},
 		MinNontrivial: 1000,
 		Run: func(c *core.Ctx) {
